@@ -9,11 +9,20 @@ package main
 // obligation that mentions it no longer compiles.
 
 import (
+	"bytes"
 	"fmt"
 	"go/ast"
+	"go/printer"
 	"go/token"
 	"strings"
 )
+
+// stmtText prints a statement or expression in gofmt form (no comments).
+func stmtText(x *extractor, n ast.Node) string {
+	var buf bytes.Buffer
+	printer.Fprint(&buf, token.NewFileSet(), n)
+	return strings.Join(strings.Fields(buf.String()), " ")
+}
 
 type tkind int
 
@@ -78,6 +87,20 @@ func (t *trans) expr(e ast.Expr, want tkind) (tkind, string) {
 			_ = p
 		}
 		return t.fail("identifier %s", v.Name)
+	case *ast.UnaryExpr:
+		switch v.Op {
+		case token.XOR:
+			k, e := t.expr(v.X, kU)
+			if k != kU {
+				return t.fail("complement of a signed value")
+			}
+			return kU, "(Go64.notU " + e + ")"
+		case token.SUB:
+			if lit, ok := v.X.(*ast.BasicLit); ok && lit.Kind == token.INT && want == kI {
+				return kI, "(-" + lit.Value + " : Int)"
+			}
+		}
+		return t.fail("unary %s", v.Op)
 	case *ast.IndexExpr:
 		bk, bs := t.expr(v.X, kU)
 		if bk != kB {
@@ -312,8 +335,123 @@ func (x *extractor) genFuncs() string {
 			fmt.Fprintf(&b, "-- utils.GetBitsAsUint64 loop body: not translatable (%s)\n\n", t.err)
 		}
 	}
+	// the two's-complement branch of the signed read
+	if _, fd := x.fn("utils", "GetBitsAsInt64"); fd != nil && fd.Body != nil {
+		if def := t.translateNegBranch("GetBitsAsInt64", fd); def != "" {
+			b.WriteString(def + "\n")
+		} else {
+			x.problem("utils.GetBitsAsInt64 negative branch not translatable: %s", t.err)
+			fmt.Fprintf(&b, "-- utils.GetBitsAsInt64 negative branch: not translatable (%s)\n\n", t.err)
+		}
+	}
 	b.WriteString("end Ntrip.Gen\n")
 	return b.String()
+}
+
+// translateNegBranch translates the body of `if negative { … }` of utils.GetBitsAsInt64 (the
+// two's-complement arithmetic) as a function of `uval` and `len`, after checking that the
+// statements around it are the two reads and the final conversion the model assumes.
+func (t *trans) translateNegBranch(name string, fd *ast.FuncDecl) string {
+	t.env = map[string]tkind{}
+	t.err = ""
+	var lenName string
+	if ps := fd.Type.Params.List; len(ps) >= 1 {
+		last := ps[len(ps)-1]
+		if k, ok := kindOfType(last.Type); ok && k == kU && len(last.Names) >= 1 {
+			lenName = last.Names[len(last.Names)-1].Name
+		}
+	}
+	if lenName == "" {
+		t.err = "no unsigned length parameter"
+		return ""
+	}
+	var branch *ast.IfStmt
+	var shape []string
+	for _, st := range fd.Body.List {
+		if is, ok := st.(*ast.IfStmt); ok && branch == nil && is.Else == nil && is.Init == nil {
+			branch = is
+			shape = append(shape, "if "+stmtText(t.x, is.Cond))
+			continue
+		}
+		shape = append(shape, stmtText(t.x, st))
+	}
+	want := []string{
+		"negative := GetBitsAsUint64(buff, pos, 1) == 1",
+		"uval := GetBitsAsUint64(buff, pos, " + lenName + ")",
+		"if negative",
+		"return int64(uval)",
+	}
+	if strings.Join(shape, " ; ") != strings.Join(want, " ; ") {
+		t.err = "statements around the branch are " + strings.Join(shape, " ; ")
+		return ""
+	}
+	t.env["uval"] = kU
+	t.env[lenName] = kU
+	var body strings.Builder
+	done := false
+	for _, st := range branch.Body.List {
+		if done {
+			t.err = "statement after return"
+			break
+		}
+		switch s := st.(type) {
+		case *ast.DeclStmt:
+			gd, ok := s.Decl.(*ast.GenDecl)
+			if !ok || gd.Tok != token.VAR || len(gd.Specs) != 1 {
+				t.err = "declaration"
+				break
+			}
+			vs := gd.Specs[0].(*ast.ValueSpec)
+			if len(vs.Names) != 1 || len(vs.Values) != 1 || vs.Type == nil {
+				t.err = "declaration shape"
+				break
+			}
+			k, ok := kindOfType(vs.Type)
+			if !ok {
+				t.err = "declared type " + exprText(vs.Type)
+				break
+			}
+			kk, e := t.expr(vs.Values[0], k)
+			if kk != k {
+				t.err = "initialiser kind of " + vs.Names[0].Name
+				break
+			}
+			t.env[vs.Names[0].Name] = k
+			fmt.Fprintf(&body, "  let %s := %s\n", vs.Names[0].Name, e)
+		case *ast.AssignStmt:
+			id, ok := s.Lhs[0].(*ast.Ident)
+			if !ok || len(s.Lhs) != 1 || len(s.Rhs) != 1 || s.Tok != token.DEFINE {
+				t.err = "assignment shape"
+				break
+			}
+			k, e := t.expr(s.Rhs[0], kI)
+			t.env[id.Name] = k
+			fmt.Fprintf(&body, "  let %s := %s\n", id.Name, e)
+		case *ast.ReturnStmt:
+			if len(s.Results) != 1 {
+				t.err = "return with several results"
+				break
+			}
+			k, e := t.expr(s.Results[0], kI)
+			if k != kI {
+				t.err = "returned kind"
+			}
+			fmt.Fprintf(&body, "  %s\n", e)
+			done = true
+		default:
+			t.err = fmt.Sprintf("statement %T", st)
+		}
+		if t.err != "" {
+			break
+		}
+	}
+	if t.err == "" && !done {
+		t.err = "no return in the branch"
+	}
+	if t.err != "" {
+		return ""
+	}
+	return fmt.Sprintf("def %s (uval : Nat) (%s : Nat) : Int :=\n%s", leanIdent("fn_"+t.alias+"_"+name+"_neg"), lenName, body.String())
 }
 
 // constInt evaluates a package-level integer constant by name.
